@@ -473,6 +473,12 @@ def equals_default(value: object, default: object) -> bool:
     (Kafka omits a tagged double when `value == default`, so -0.0 counts as the 0.0 default)."""
     if isinstance(value, float) and isinstance(default, float):
         return value == default
+    if dataclasses.is_dataclass(value) and not isinstance(value, type):
+        return type(value) is type(default) and all(
+            equals_default(getattr(value, f.name), getattr(default, f.name)) for f in dataclasses.fields(value)
+        )
+    if isinstance(value, tuple) and isinstance(default, tuple):
+        return len(value) == len(default) and all(equals_default(a, b) for a, b in zip(value, default))
     return py_equal(value, default)
 
 
